@@ -96,9 +96,11 @@ def build_compound(mask, kind):
     w = World(catalogue=True)
     for c in CUR:
         w.must(['cur', c])
-    if kind == 'mass':
-        res = w.must(['dtype', 'PPX', [['Money', 1], ['Mass', -1]], None,
-                       None])
+    if kind in ('mass', 'mass-xref'):
+        # 'mass-xref': the same type declared with an explicit reference
+        # unit symbol although Money has no reference unit
+        res = w.must(['dtype', 'PPX', [['Money', 1], ['Mass', -1]],
+                       'X' if kind == 'mass-xref' else None, None])
         den = {'kg': 'kg', 'g': 'g'}
     elif kind == 'length':
         res = w.must(['dtype', 'PPX', [['Money', 1], ['Length', -1]], None,
@@ -300,6 +302,55 @@ def part_money(p, rates):
     return st
 
 
+@guarded('C10')
+def run_xref_mixing(w, s1, s2):
+    """two price units of different currencies never mix"""
+    Q = w.q
+    u1, u2 = w.units[s1], w.units[s2]
+    a, b = u1.qty_cls(3, u1), u2.qty_cls(3, u2)
+    out = []
+    for name, f in (('==', lambda: a == b), ('+', lambda: a + b),
+                    ('<', lambda: a < b), ('convert', lambda: a.convert(u2))):
+        try:
+            r = f()
+        except Q.QuantityError:
+            continue
+        except Exception as exc:
+            r = exc
+        if name == '==' and r is False:
+            continue
+        out.append(('C10:explicit-ref-unit:currencies-mixed',
+                    f"(3 {s1}) {name} (3 {s2}) gives {r!r} although the "
+                    "prices are in different currencies"))
+    return out
+
+
+def part_xref(mask):
+    """Money/Mass declared with an explicit reference unit symbol"""
+    st = Stats()
+    w, declared = build_compound(mask, 'mass-xref')
+    for order in ('p*m', 'm*p'):
+        for psym in declared:
+            st.paths += 1
+            st.state(('xref', mask, psym, order), nontrivial=True)
+            res = run_price_times_mass(w, psym, 'kg', '1745/1000', order, st)
+            for sig, msg in res:
+                st.violation(sig + ':explicit-ref-unit', msg,
+                             {'xref': mask, 'price_mass': [psym, order]})
+    for s1 in declared:
+        for s2 in declared:
+            c1 = [x for x, e in w.um[s1].udim if x in CUR]
+            c2 = [x for x, e in w.um[s2].udim if x in CUR]
+            if c1 != c2:
+                st.paths += 1
+                st.transitions += 4
+                st.evaluations += 4
+                for sig, msg in run_xref_mixing(w, s1, s2):
+                    st.violation(sig, msg, {'xref': mask,
+                                            'mixing': [s1, s2]})
+    return st
+
+
 def part_compound(p, rates):
     mask, kind = p
     st = Stats()
@@ -346,6 +397,9 @@ def replay_price_mass(case):
 
 
 def replay(case):
+    if 'xref' in case:
+        st = part_xref(case['xref'])
+        return [(sig, msg) for sig, (n, msg, cs) in st.viol.items()]
     if 'price_mass' in case:
         return replay_price_mass(case)
     Money = money()
@@ -371,6 +425,7 @@ def run(tier, seed):
               and r[1] in ('EUR', 'USD', 'JPY')][::2 if tier == 'quick'
                                                   else 1]
     total.merge(pmap(part_compound, cparts, (crates,), fresh=True))
+    total.merge(pmap(part_xref, [3, 5, 10, 15], fresh=True))
     total.sample({'money': ['EUR', '527/100', 'EUR', 'JPY', '150', 'm*r',
                             modes[1]]})
     total.sample({'compound': [5, 'mass', 'EUR/kg', '1745/100', 'EUR', 'USD',
